@@ -59,11 +59,33 @@ M = {
  "C18_toggle_wipes_cons_prefix_only": ("C18", "Tendermint -> TSS -> Tendermint toggles with updates in between", "C18 quick (C18.NoPartialMetadata / C18.TssKeepsNothing)", "caught at first attempt"),
  "C19_decode_lowercases_sender": ("C19", "a sender that is a 20-byte hex account with upper-case digits", "C19 quick (C19.DecodeEncode, string class 'hexaddr')", "missed by the first version; caught after the class was added"),
  "C20_full_reward_on_raw_balance": ("C20", "a denomination listed twice with the pool between the later entry and the sum", "C20 quick (NeverHalts / Release)", "caught at first attempt"),
+ # round 4 (sub-agents were told rounds 1-3)
+ "C01_history_window_prunes_receipt": ("C01", "a receive of (S,D,n), then a receive of exactly (S,D,n+256), then a replay of (S,D,n)", "C01 thorough (C01.ReceiptStable / MarksExact on the long-history leg, about 280 packets on one path)", "missed by the first version (bounded models and 25-step behaviours cannot reach a threshold of 256); the long-history leg was added; the quick tier (70 packets) does not reach the threshold"),
+ "C02_commitment_concat_no_lengths": ("C02", "two packets differing only in where the boundary between adjacent variable-length fields falls", "C02 quick (C02.AuthRecv: the stored commitment is not the reference hash of the packet) and C19 quick (C19.CommitmentsDiffer)", "caught at first attempt"),
+ "C03_hook_skips_when_to_not_system": ("C03", "a send reached through an intermediary contract", "C04 quick (C04.SendStep, C04.NoStrayEscrow via SendVia)", "caught at first attempt (by C04; the conservation operator of C03 counts packets the chain recorded)"),
+ "C04_identical_second_send_skipped": ("C04", "one transaction with two byte-identical sends to the same destination", "C04 quick (C04.SendTwoStep)", "caught at first attempt"),
+ "C05_tss_ack_proof_kept_when_given": ("C05", "an acknowledgement through a TSS client from a non-TSS signer whose proof bytes are the TSS address", "C06 quick (C06.TssOnly, proof class 'tssaddr')", "caught at first attempt (by C06)"),
+ "C06_validatebasic_sorts_chains": ("C06", "a register-relayer proposal whose chains are not in lexicographic order", "C06 quick (C06.RegistrationInstalled)", "caught at first attempt"),
+ "C07_backfill_lowers_latest": ("C07", "an upgrade to the next revision at a low height, then a back-filled header of the previous revision", "C07 quick (C07.LatestMonotone)", "caught at first attempt"),
+ "C08_eth_storage_root_self_compare": ("C08", "a genuine account proof with a storage root and storage proof of another storage trie in which the slot holds the claimed value", "C08 quick (C08.AcceptedOnlyIfAllRight, account class 'forgedstorage')", "missed by the first version (the wrong-storage class proved another value); class added"),
+ "C09_upgrade_keeps_stale_pending": ("C09", "a governance upgrade of a live BSC client whose epoch header announces the set already in force, while an older pending list is stored", "C09 quick (C09.PendingIsAnnounced, C09.SwitchesToAnnounced)", "missed by the first version (no upgrades in BSCClient.tla, and the switch judge read the client's own pending set); Upgrade action and ghost 'announced' added"),
+ "C10_rinkeby_skips_gas_basefee": ("C10", "a Rinkeby client, a header whose difficulty is not the ethash value and which breaks the gas-limit or base-fee rule", "C10 quick (C10.OnlyRuleAbiding)", "caught at first attempt"),
+ "C11_param_pairs_crossed": ("C11", "a governance parameter-change proposal setting EnableAggregate=false by key, then a conversion", "C11 quick (C11.GateGoverned, C11.ParamReadsBack)", "missed by the first version (the gate judge read the module's own parameter struct); ghost govOn added"),
+ "C12_voucher_lookup_prefers_contract_index": ("C12", "two address updates, the second onto the address the first released", "C12 quick (C12.FoundByLookup)", "missed by the first version (raw indexes stay consistent); public lookups recorded per pair, third standard token, directed behaviour"),
+ "C13_packet_chain_name_bound_50": ("C13", "a chain name of 51..64 characters with packet traffic, then an export", "C13 quick (C13.Validates on the final states of the authorisation behaviours)", "missed by the first version (short chain names only); names of 51 and 64 characters in the authorisation world"),
+ "C14_relayer_lookup_map_order": ("C14", "two relayers registered with the same counterparty address on a chain, then acknowledgements paying the fee", "C14 quick (C14.SameState / SameResults on the authorisation behaviours)", "missed by the first version (one address per relayer; auth driver not in the C14 plan); shared addresses (version 3) and directed behaviours added"),
+ "C15_eth_bloom_length_unchecked": ("C15", "an ETH client proposal whose header bloom has more than 256 bytes", "C15 quick (C15.NoPanicInHandler, class 'longbloom')", "caught at first attempt"),
+ "C16_hook_converts_whole_balance": ("C16", "a receiver already holding vouchers of the denomination when a packet for a registered pair arrives", "C16 quick (C16.ConversionAtomic)", "caught at first attempt"),
+ "C17_notbonded_burn_destroys": ("C17", "a double-sign slash that also hits an unbonding delegation (burn from the not-bonded pool)", "C17 quick (C17.SlashSupplyUnchanged, C17.SlashBurnToCollector)", "missed by the first version (no slashing); Slash action added"),
+ "C18_bsc_upgrade_keeps_later_signers": ("C18", "a BSC client updated past an epoch header and then upgraded back to that header", "C18 quick (C18.BscUpgradeInstalls, C18.BscValidUpdateAccepted; BSC leg)", "missed by the first version (BSC upgrades not replayed); BSC leg added"),
+ "C19_iterate_splits_on_sequences": ("C19", "a chain named like a constant element of the store paths ('sequences')", "C19 quick (C19.KeyParseBack, name class 'kwsequences')", "missed by the first version; keyword name classes added"),
+ "C20_params_cached_in_keeper": ("C20", "a governance parameter change between blocks", "C20 quick (ParamChange / Release)", "caught at first attempt"),
 }
 
 
 def main():
     R3 = set(l.split()[0] for l in open(os.path.join(ROOT, "seeded", "round3.list")) if l.strip())
+    R4 = set(l.split()[0] for l in open(os.path.join(ROOT, "seeded", "round4.list")) if l.strip())
     for n, (p, needs, by, hist) in M.items():
         d = os.path.join(ROOT, "seeded", n)
         if not os.path.isdir(d):
@@ -75,7 +97,7 @@ def main():
                    "what_was_run": "bin/confirmseed in the scratch worktree (build ok, demonstration fails with / passes without the change, repository suite 414/414); "
                                    "bin/tryall (git -C /repo apply, quick check, git checkout): " + ts[:400],
                    "origin": "independent sub-agent given only the property text, the list of already known changes and a scratch worktree (round %d)"
-                             % (3 if n in R3 else 2)},
+                             % (4 if n in R4 else 3 if n in R3 else 2)},
                   open(os.path.join(d, "meta.json"), "w"), indent=1)
     print("ok")
 
